@@ -631,8 +631,8 @@ func runC19(c *Ctx) {
 				}
 				n++
 				isAll := call.Common().Method.Name() == "AsyncWriteAll"
-				sl, okS := stripConv(call.Common().Args[0]).(*ssa.Slice)
-				rng := okS && loadOfField(sl.X, dataF) && loadOfField(sl.Low, si) && loadOfField(sl.High, ri)
+				lows, high, okS := sliceView(call.Common().Args[0], dataF)
+				rng := okS && len(lows) == 1 && loadOfField(lows[0], si) && loadOfField(high, ri)
 				c.check(isAll && rng, fn, "transport write", in.Pos(), "the whole read area is written with AsyncWriteAll", "AsyncWriteTo does not hand data[si:ri] to AsyncWriteAll: a partial write completes the item with bytes left behind, which are then sent in front of the next item")
 				if mc, ok := strip(call.Common().Args[1]).(*ssa.MakeClosure); ok {
 					cf := mc.Fn.(*ssa.Function)
@@ -644,6 +644,23 @@ func runC19(c *Ctx) {
 						}
 					}
 					nCons := len(callsToFn(cf, consume))
+					// the completion may hand (n, err) to a helper that consumes under err == nil
+					for _, dc := range deepCallsTo(cf, consume) {
+						if dc.Call.Parent() == cf {
+							continue
+						}
+						nCons++
+						amountOK := stripConv(dc.translate(dc.Call.Call.Args[1])) == ssa.Value(cf.Params[1])
+						guardOK := false
+						for q, arg := range dc.subst {
+							if stripConv(arg) == ssa.Value(cf.Params[0]) && guardedNil(dc.Call.Block(), q) {
+								guardOK = true
+							}
+						}
+						if amountOK && guardOK {
+							good = true
+						}
+					}
 					c.check(good && nCons == 1, cf, "consume written", cf.Pos(), "exactly the reported count is consumed, on success only", "the completion of AsyncWriteTo does not consume exactly the reported count under err == nil")
 				}
 			})
@@ -661,19 +678,37 @@ func runC19(c *Ctx) {
 				if !ok || !call.Common().IsInvoke() || call.Common().Method.Name() != "Write" {
 					return
 				}
-				sl, ok := stripConv(call.Common().Args[0]).(*ssa.Slice)
-				if !ok || !loadOfField(sl.X, dataF) || !loadOfField(sl.High, ri) {
+				lows, high, ok := sliceView(call.Common().Args[0], dataF)
+				if !ok || !loadOfField(high, ri) {
 					return
 				}
-				bo, ok := stripConv(sl.Low).(*ssa.BinOp)
-				if !ok || bo.Op != token.ADD {
-					return
+				// the lower bound is si + bytes already written (one expression, or a slice of the read area taken before
+				// the loop and re-sliced from the running total)
+				var leaves []ssa.Value
+				var flat func(v ssa.Value, d int)
+				flat = func(v ssa.Value, d int) {
+					v = stripConv(v)
+					if bo, ok := v.(*ssa.BinOp); ok && bo.Op == token.ADD && d < 4 {
+						flat(bo.X, d+1)
+						flat(bo.Y, d+1)
+						return
+					}
+					leaves = append(leaves, v)
+				}
+				for _, lo := range lows {
+					flat(lo, 0)
 				}
 				var acc ssa.Value
-				if loadOfField(bo.X, si) {
-					acc = bo.Y
-				} else if loadOfField(bo.Y, si) {
-					acc = bo.X
+				nSi := 0
+				for _, l := range leaves {
+					if loadOfField(l, si) {
+						nSi++
+					} else {
+						acc = l
+					}
+				}
+				if nSi != 1 || len(leaves) != 2 {
+					return
 				}
 				ph, ok := stripConv(acc).(*ssa.Phi)
 				if !ok {
@@ -742,6 +777,14 @@ func runC19(c *Ctx) {
 					if okN && errv != nil && guardedNil(a.Site.Block(), errv) {
 						good = true
 					}
+					// the (n, err) pair is handed to a helper that grows the write area under err == nil
+					if okN && errv != nil {
+						for q, arg := range a.subst {
+							if stripConv(arg) == stripConv(errv) && guardedNil(a.Store.Block(), q) {
+								good = true
+							}
+						}
+					}
 				}
 			}
 			c.check(good, fn, "grow by count", fn.Pos(), "the write area grows by exactly the count reported, on success only", name+" does not grow the write area by exactly the count the reader reported under err == nil: bytes are invented or lost")
@@ -791,4 +834,56 @@ func resolveCellDeep(v ssa.Value) ssa.Value {
 		v = n
 	}
 	return v
+}
+
+// sliceView resolves a byte-slice value to the range of ByteBuffer.data it denotes: the lower bounds to add up and the
+// upper bound. b.data[lo:hi] -> ([lo], hi); a pure getter returning such a slice stands for it; s[lo:] of a view keeps
+// the view's upper bound and adds lo.
+func sliceView(v ssa.Value, dataF *types.Var) ([]ssa.Value, ssa.Value, bool) {
+	v = stripConv(v)
+	for i := 0; i < 4; i++ {
+		r := resolveCell(v)
+		if r == v {
+			break
+		}
+		v = stripConv(r)
+	}
+	if call, ok := v.(*ssa.Call); ok {
+		// a getter of the buffer that returns one slice expression over its own fields (Data(): data[si:ri])
+		h := call.Call.StaticCallee()
+		if h == nil || h.Blocks == nil || len(h.Blocks) != 1 || len(h.Params) != 1 || len(call.Call.Args) != 1 {
+			return nil, nil, false
+		}
+		for _, in := range h.Blocks[0].Instrs {
+			switch x := in.(type) {
+			case *ssa.FieldAddr, *ssa.UnOp, *ssa.Slice, *ssa.DebugRef, *ssa.Convert, *ssa.ChangeType:
+			case *ssa.Return:
+				if len(x.Results) == 1 {
+					return sliceView(x.Results[0], dataF)
+				}
+				return nil, nil, false
+			default:
+				return nil, nil, false
+			}
+		}
+		return nil, nil, false
+	}
+	sl, ok := v.(*ssa.Slice)
+	if !ok {
+		return nil, nil, false
+	}
+	if loadOfField(sl.X, dataF) {
+		if sl.Low == nil || sl.High == nil {
+			return nil, nil, false
+		}
+		return []ssa.Value{sl.Low}, sl.High, true
+	}
+	lows, high, ok := sliceView(sl.X, dataF)
+	if !ok || sl.High != nil {
+		return nil, nil, false
+	}
+	if sl.Low != nil {
+		lows = append(append([]ssa.Value{}, lows...), sl.Low)
+	}
+	return lows, high, true
 }
